@@ -6,6 +6,7 @@ import MiniMoka.Wire
 import MiniMoka.Unsync
 import MiniMoka.Sync
 import MiniMoka.Spec.Oracles
+import MiniMoka.Spec.OraclesExt
 import MiniMoka.DequeHeap
 import MiniMoka.Config
 import MiniMoka.ConcR
@@ -215,6 +216,12 @@ def cacheLine (m : Machine) (op : String) : Machine × Option String :=
 
   | _ => (m, none)
 
+/-- Operations that may run between the creation and the consumption of an iterator in an
+`iterover` line: those whose observation is always `ok`. -/
+def iterInnerOk : Op → Bool
+  | .ins _ _ | .inv _ | .invAll | .sync | .adv _ => true
+  | _ => false
+
 def stepLine (m : Machine) (line : String) : Machine × Option String :=
   let op := (opPart line).trimAscii.toString
   if op.isEmpty || op.startsWith "#" then (m, none)
@@ -243,15 +250,18 @@ def stepLine (m : Machine) (line : String) : Machine × Option String :=
         -- dropping the last handle releases every key and value (Rust runs the destructors
         -- when the last `Rc`/`Arc` goes: trusted)
         (.dead, some "drop -> dropped k=0 v=0")
-      else if op.startsWith "iterlag " then
-        -- `iterlag d`: the iterator is created, the clock moves by `d`, then the iterator is
-        -- consumed.  Creating an iterator reads nothing (`Cache::iter` only wraps the map's
-        -- iterator); expiry is judged when an entry is yielded.  So the composite is the clock
-        -- step followed by an iteration, and it prints the iteration's observation.
-        match ((op.drop 8).toString.trimAscii.toString).toNat? with
-        | none => (m, some s!"{op} -> bad-op")
-        | some d =>
-          let (m1, o1) := cacheLine m s!"adv {d}"
+      else if op.startsWith "iterlag " || op.startsWith "iterover " then
+        -- `iterlag d` = `iterover adv d`.  `iterover X`: an iterator is created, the operation
+        -- `X` is executed, then the iterator is consumed.  Creating an iterator reads nothing
+        -- (`Cache::iter` only wraps the map's iterator, which takes its first shard lock at the
+        -- first `next`); expiry and the invalidation watermark are judged when an entry is
+        -- yielded.  So the composite is `X` followed by an iteration, and it prints the
+        -- iteration's observation.
+        let inner :=
+          if op.startsWith "iterlag " then s!"adv {(op.drop 8).toString.trimAscii.toString}"
+          else (op.drop 9).toString.trimAscii.toString
+        if !((parseOp inner).map iterInnerOk).getD false then (m, some s!"{op} -> bad-op") else
+          let (m1, o1) := cacheLine m inner
           match m1 with
           | .dead => (m1, o1.map (fun s => s!"{op} -> {((s.splitOn " -> ").getD 1 "")}"))
           | _ =>
@@ -290,7 +300,10 @@ def oracleFor (prop : String) (c : Cfg) (t : Spec.Trace) : Option Bool :=
   | "C16" => some (Spec.oracleC16 (kindOf c) c.ttl c.tti t)
   | "C04" => some (Spec.oracleC04 (kindOf c) c.cap (Spec.noFreq t))
   | "C13" => some (Spec.oracleC13 (kindOf c) c.cap c.ttl c.tti c.params.weigh t)
-  | "C12" => some (Spec.oracleC12 (kindOf c) c.cap c.ttl c.tti c.params.weigh Gen.UNSYNC_EVICTION_BATCH_SIZE t)
+  | "C12" => some (Spec.oracleC12 (kindOf c) c.cap c.ttl c.tti c.params.weigh Gen.UNSYNC_EVICTION_BATCH_SIZE t &&
+      (match kindOf c, c.cap with
+       | .unsync, some cap => Spec.growthExpC12 cap c.ttl c.tti Gen.UNSYNC_EVICTION_BATCH_SIZE t
+       | _, _ => true))
   | "C11" => some (Spec.oracleC11 t)
   | "C14" => some (Spec.onlyGetC14 (Spec.noFreq t))
   | "C03" =>
@@ -388,11 +401,15 @@ partial def oracleLoop (prop : String) (h : IO.FS.Stream) (out : IO.FS.Stream)
             let c' := if c.parseError.isSome then c else { c with parseError := some l }
             oracleLoop prop h out (some c') n
         else
-        if opS.trimAscii.toString.startsWith "iterlag " then
-          -- composite of a clock step and an iteration (see `stepLine`)
-          match ((opS.trimAscii.toString.drop 8).toString.trimAscii.toString).toNat?, parseObs obS with
-          | some d, some ob =>
-            oracleLoop prop h out (some { c with trace := (.iter, ob) :: (.adv d, .ok) :: c.trace }) n
+        if opS.trimAscii.toString.startsWith "iterlag " || opS.trimAscii.toString.startsWith "iterover " then
+          -- composite of an operation and an iteration (see `stepLine`)
+          let o := opS.trimAscii.toString
+          let inner :=
+            if o.startsWith "iterlag " then s!"adv {(o.drop 8).toString.trimAscii.toString}"
+            else (o.drop 9).toString.trimAscii.toString
+          match (parseOp inner).filter iterInnerOk, parseObs obS with
+          | some iop, some ob =>
+            oracleLoop prop h out (some { c with trace := (.iter, ob) :: (iop, .ok) :: c.trace }) n
           | _, _ =>
             let c' := if c.parseError.isSome then c else { c with parseError := some l }
             oracleLoop prop h out (some c') n
